@@ -1,7 +1,10 @@
 /-
-Impl layer: byte-level marshalling of the WKD-IBE objects (src/wkdibe/marshal.cpp) and the length
-arithmetic of include/wkdibe/api.hpp, as functions on byte lists built from the point encoders of
-Impl/Encode.lean.  Hand-written; tied to /repo by the correspondence check.  No Mathlib.
+Impl layer: byte-level marshalling AND unmarshalling of the WKD-IBE objects (src/wkdibe/marshal.cpp) and the
+length arithmetic of include/wkdibe/api.hpp, as functions on byte lists built from the point encoders /
+decoders of Impl/Encode.lean.  Hand-written; tied to /repo by the correspondence check: the judge
+(Driver/Judge5.lean `wk_m`, Driver/Judge6.lean `wk_um` / `lq_um`) executes exactly these definitions against the
+real code, and the theorems (Proofs/MarshalProofs.lean, Proofs/EncodeProofs.lean, Properties/C15*.lean) are about
+exactly these definitions.  No Mathlib.
 -/
 import JediVerif.Impl.Encode
 import JediVerif.Spec.Wkdibe
@@ -44,5 +47,183 @@ def unLen (isParams comp : Bool) (firstByte n : Nat) : Option Nat :=
   let unit := if isParams then g1Size comp else 4 + g1Size comp
   if n < without then none else if (n - without) % unit == 0 then some ((n - without) / unit) else none
 
+/-! ## validating decode of the repaired library (`coordinate_is_canonical`) -/
+
+/-- first byte as a number (what `decode` and `setLength` inspect). -/
+def firstByte (bs : List UInt8) : Nat := (bs.headD 0).toNat
+
+/-- `coordinate_is_canonical(value, encoded, allowed_flags)`: re-serialise, copy the allowed flag
+bits of the input's first byte, compare. -/
+def coordCanonical {F : Type} (o : FieldOps F) (v : F) (enc : List UInt8) (allowed : Nat) : Bool :=
+  orFirst (o.toBytes v) ((enc.headD 0).toNat &&& allowed) == enc
+
+/-- Validating decode of the repaired library: `decode … checked = true` plus the canonicity test
+of every coordinate that was read (x with the three flag bits allowed, y with none). -/
+def decodeChecked {F : Type} (o : FieldOps F) (inSub : Pt F → Bool) (compressed : Bool) (bs : List UInt8) :
+    Option (Pt F) :=
+  match decode o inSub compressed true bs with
+  | none => none
+  | some .inf => some .inf
+  | some (.aff x y) =>
+    if coordCanonical o x (bs.take o.size) 224 &&
+        (compressed || coordCanonical o y ((bs.drop o.size).take o.size) 0)
+    then some (.aff x y) else none
+
+/-! ## Unmarshalling models (src/wkdibe/marshal.cpp `…::unmarshal`, with `setLength`)
+
+ONE definition, used both by the differential judge (`Driver/Judge6.lean`, cases `wk_um` / `lq_um`, which runs these
+readers against the real code) and by the round-trip / canonicity theorems (`Proofs/EncodeProofs.lean`,
+`Properties/C15b.lean`).  The readers are parameterised by the point decoders (`Encoding::decode` with the caller's
+`checked` flag) and by the pairing (compressed parameters do not carry `e(g2, g1)`; `Params::unmarshal` recomputes
+it). -/
+
+/-- `Fq12::read_big_endian`: twelve 48-byte big-endian coefficients, most significant component first. -/
+def fq12OfBytes (bs : List UInt8) : Fq12 :=
+  let c := fun i => fqOfBytes48 ((bs.drop (48 * i)).take 48)
+  ⟨⟨⟨c 11, c 10⟩, ⟨c 9, c 8⟩, ⟨c 7, c 6⟩⟩, ⟨⟨c 5, c 4⟩, ⟨c 3, c 2⟩, ⟨c 1, c 0⟩⟩⟩
+
+structure WCiphertext where
+  a : Fq12
+  b : G2Pt
+  c : G1Pt
+
+structure WSignature where
+  a0 : G1Pt
+  a1 : G2Pt
+
+/-- what the readers are parameterised by: `Encoding<G1Affine, comp>::decode(·, checked)`,
+`Encoding<G2Affine, comp>::decode(·, checked)` (first argument: compressed form?), and the pairing. -/
+structure Decoders where
+  dec1 : Bool → List UInt8 → Option G1Pt
+  dec2 : Bool → List UInt8 → Option G2Pt
+  pair : G1Pt → G2Pt → Fq12
+
+def takeN (n : Nat) (bs : List UInt8) : Option (List UInt8 × List UInt8) :=
+  if bs.length < n then none else some (bs.take n, bs.drop n)
+
+def readG1 (D : Decoders) (comp : Bool) (bs : List UInt8) : Option (G1Pt × List UInt8) :=
+  match takeN (g1Size comp) bs with
+  | none => none
+  | some (c, rest) => match D.dec1 comp c with | none => none | some p => some (p, rest)
+
+def readG2 (D : Decoders) (comp : Bool) (bs : List UInt8) : Option (G2Pt × List UInt8) :=
+  match takeN (g2Size comp) bs with
+  | none => none
+  | some (c, rest) => match D.dec2 comp c with | none => none | some p => some (p, rest)
+
+def readG1s (D : Decoders) (comp : Bool) : Nat → List UInt8 → Option (List G1Pt × List UInt8)
+  | 0, bs => some ([], bs)
+  | k+1, bs =>
+    match readG1 D comp bs with
+    | none => none
+    | some (p, rest) => match readG1s D comp k rest with | none => none | some (ps, rest') => some (p :: ps, rest')
+
+/-- `FreeSlot::unmarshal`, l times: the element, then the 32-bit big-endian index. -/
+def readSlots (D : Decoders) (comp : Bool) : Nat → List UInt8 → Option (List (Nat × G1Pt) × List UInt8)
+  | 0, bs => some ([], bs)
+  | k+1, bs =>
+    match readG1 D comp bs with
+    | none => none
+    | some (p, rest) =>
+      match takeN 4 rest with
+      | none => none
+      | some (ib, rest2) =>
+        match readSlots D comp k rest2 with | none => none | some (ps, rest') => some ((ofBytesBE ib, p) :: ps, rest')
+
+def marshalCt (comp : Bool) (ct : WCiphertext) : List UInt8 := fq12Bytes ct.a ++ encG2 comp ct.b ++ encG1 comp ct.c
+def marshalSig (comp : Bool) (s : WSignature) : List UInt8 := encG1 comp s.a0 ++ encG2 comp s.a1
+def marshalMsk (comp : Bool) (m : G1Pt) : List UInt8 := encG1 comp m
+
+/-- `setLength` + `Params::unmarshal`; `none` = length refused or a decode failed. -/
+def unmarshalParams (D : Decoders) (comp : Bool) (bs : List UInt8) : Option WParams :=
+  match unLen true comp (firstByte bs) bs.length with
+  | none => none
+  | some l =>
+  let sg := firstByte bs != 0
+  match readG2 D comp (bs.drop 1) with
+  | none => none
+  | some (g, r1) =>
+  match readG2 D comp r1 with
+  | none => none
+  | some (g1, r2) =>
+  match readG1 D comp r2 with
+  | none => none
+  | some (g2, r3) =>
+  match readG1 D comp r3 with
+  | none => none
+  | some (g3, r4) =>
+  match (if comp then some (D.pair g2 g1, r4) else
+          match takeN 576 r4 with | none => none | some (b, r) => some (fq12OfBytes b, r)) with
+  | none => none
+  | some (pairing, r5) =>
+  match (if sg then readG1 D comp r5 else some (Pt.inf, r5)) with
+  | none => none
+  | some (hsig, r6) =>
+  match readG1s D comp l r6 with
+  | none => none
+  | some (h, _) => some { g := g, g1 := g1, g2 := g2, g3 := g3, pairing := pairing, hsig := hsig, signatures := sg, h := h }
+
+/-- `setLength` + `SecretKey::unmarshal`. -/
+def unmarshalKey (D : Decoders) (comp : Bool) (bs : List UInt8) : Option WKey :=
+  match unLen false comp (firstByte bs) bs.length with
+  | none => none
+  | some l =>
+  let sg := firstByte bs != 0
+  match readG1 D comp (bs.drop 1) with
+  | none => none
+  | some (a0, r1) =>
+  match readG2 D comp r1 with
+  | none => none
+  | some (a1, r2) =>
+  match (if sg then readG1 D comp r2 else some (Pt.inf, r2)) with
+  | none => none
+  | some (bsig, r3) =>
+  match readSlots D comp l r3 with
+  | none => none
+  | some (b, _) => some { a0 := a0, a1 := a1, signatures := sg, bsig := bsig, b := b }
+
+def unmarshalCt (D : Decoders) (comp : Bool) (bs : List UInt8) : Option WCiphertext :=
+  match takeN 576 bs with
+  | none => none
+  | some (ab, r1) =>
+  match readG2 D comp r1 with
+  | none => none
+  | some (b, r2) =>
+  match readG1 D comp r2 with
+  | none => none
+  | some (c, _) => some { a := fq12OfBytes ab, b := b, c := c }
+
+def unmarshalSig (D : Decoders) (comp : Bool) (bs : List UInt8) : Option WSignature :=
+  match readG1 D comp bs with
+  | none => none
+  | some (a0, r1) =>
+  match readG2 D comp r1 with
+  | none => none
+  | some (a1, _) => some { a0 := a0, a1 := a1 }
+
+def unmarshalMsk (D : Decoders) (comp : Bool) (bs : List UInt8) : Option G1Pt := (readG1 D comp bs).map (·.1)
+
+/-! ### the library's decoders -/
+
+/-- `Encoding::decode(·, checked)` of the library as modelled in `Impl/Encode.lean` (for `checked = true`: without
+the `coordinate_is_canonical` test, i.e. the validating decode before its repair) … -/
+def libDecoders (checked : Bool) (pair : G1Pt → G2Pt → Fq12) : Decoders :=
+  { dec1 := fun comp bs => decode opsFq inSubgroup comp checked bs,
+    dec2 := fun comp bs => decode opsFq2 inSubgroup comp checked bs, pair := pair }
+
+/-- … and the repaired validating decode (with `coordinate_is_canonical`): what `unmarshal(·, checked = true)` of the
+library as it stands calls. -/
+def checkedDecoders (pair : G1Pt → G2Pt → Fq12) : Decoders :=
+  { dec1 := decodeChecked opsFq inSubgroup, dec2 := decodeChecked opsFq2 inSubgroup, pair := pair }
+
+/-- The decoders the differential judge runs the readers with: an embedded element is accepted iff it is the
+canonical encoding of a point of the curve of order dividing r (`decodeCanonical`, the C09 specification of
+validating decode), the order test done with the Jacobian double-and-add `Pt.smulFast` (the affine `Pt.smul` of
+`inSubgroup` is ~40× slower when executed).  Every reader gives the same result with these as with
+`checkedDecoders` (`Proofs/EncodeProofs.lean`: `unmarshalParams_canonicalDecoders`, …), so what the judge executes
+against the real code IS the object of the C15b theorems. -/
+def canonicalDecoders (pair : G1Pt → G2Pt → Fq12) : Decoders :=
+  { dec1 := decodeCanonical opsFq (fun p => Pt.smulFast r p == .inf) (Pt.isOnCurve g1B),
+    dec2 := decodeCanonical opsFq2 (fun p => Pt.smulFast r p == .inf) (Pt.isOnCurve g2B), pair := pair }
 
 end Jedi.Impl
